@@ -261,9 +261,10 @@ pub fn run(thorough: bool) -> Outcome {
     });
     let mut rep = rep;
     dispatcher_threads(&mut rep, &bs, &workers);
+    refused_frames_are_counted(&mut rep);
     Outcome {
         report: rep,
-        rule: "108 base frames (incl. raw-IP packets whose bytes 12/13 are near misses of an IP EtherType) (IPv4 header-length fields 0..15 and IPv6, Ethernet and raw, SYN and data segment): every truncation x every worker count 1..64 (valid index, deterministic, complete frames never discarded); every byte that is not structural (version/IHL, protocol, ethertype) rewritten to every value of the tier's value set x worker counts: the index may change only for identity bytes (TCP: source address; HTTP/TLS: addresses and ports); truncations keeping the identity give the same index, and so do extensions of the frame to IP-part lengths 1500 .. 65535, 65536 .. 65536+64, 70000, 131072(+20); HTTP index equal for the swapped direction; every base frame x pool x worker count computed on four freshly started threads and on the calling thread (dispatch takes &self, a pool is shared between dispatcher threads: the worker of a packet does not depend on who dispatches it); distinct = distinct (pool, workers, index) outcomes".into(),
+        rule: "108 base frames (incl. raw-IP packets whose bytes 12/13 are near misses of an IP EtherType) (IPv4 header-length fields 0..15 and IPv6, Ethernet and raw, SYN and data segment): every truncation x every worker count 1..64 (valid index, deterministic, complete frames never discarded); every byte that is not structural (version/IHL, protocol, ethertype) rewritten to every value of the tier's value set x worker counts: the index may change only for identity bytes (TCP: source address; HTTP/TLS: addresses and ports); truncations keeping the identity give the same index, and so do extensions of the frame to IP-part lengths 1500 .. 65535, 65536 .. 65536+64, 70000, 131072(+20); HTTP index equal for the swapped direction; frames no dispatcher can attribute (UDP, ICMP, a runt, IP version 5) through real pools: total_dropped equals the number of Dropped answers; every base frame x pool x worker count computed on four freshly started threads and on the calling thread (dispatch takes &self, a pool is shared between dispatcher threads: the worker of a packet does not depend on who dispatches it); distinct = distinct (pool, workers, index) outcomes".into(),
         exhaustive: true,
         bounds: json!({"bases": bs.len(), "byte_values": values.len(), "worker_counts_for_rewrites": workers.len()}),
     }
@@ -309,9 +310,66 @@ fn dispatcher_threads(r: &mut Report, bs: &[Base], workers: &[usize]) {
     }
 }
 
+/// Frames a dispatcher cannot attribute to any worker (UDP, ICMP, a runt, an unknown IP version) are refused before a worker
+/// is chosen. However a pool handles them, its statistics must agree with what `dispatch` answered: `total_dropped` equals
+/// the number of `Dropped` outcomes (real pools, one dispatcher, queues that cannot overflow).
+fn refused_frames_are_counted(r: &mut Report) {
+    let seg = |sport: u16, flags: u8| pkt::frame(Link::Ethernet, &pkt::build(&Spec { sport, dport: 443, flags, seq: 1000, ack: if flags & ACK != 0 { 1 } else { 0 }, payload: if flags & PSH != 0 { vec![0x17, 3, 3, 0, 1, 0] } else { vec![] }, ..Spec::default() }));
+    let mut udp = pkt::build(&Spec::default());
+    udp[9] = 17;
+    let mut icmp = pkt::build(&Spec::default());
+    icmp[9] = 1;
+    let mut v5 = pkt::build(&Spec::default());
+    v5[0] = 0x55;
+    let frames: Vec<(&str, Vec<u8>)> = vec![("syn", seg(40000, SYN)), ("udp", pkt::frame(Link::Ethernet, &udp)), ("data", seg(40000, ACK | PSH)), ("icmp", pkt::frame(Link::Ethernet, &icmp)), ("runt", vec![0x45, 0, 0, 20, 0, 0, 0, 0, 64, 6, 0, 0, 10, 0, 0, 1, 10, 0, 0, 2]), ("syn-2", seg(40001, SYN)), ("ip-version-5", pkt::frame(Link::Ethernet, &v5)), ("data-2", seg(40001, ACK | PSH)), ("udp-raw", udp.clone())];
+    for workers in [1usize, 3] {
+        for pool in ["tcp", "http", "tls"] {
+            r.exec(frames.len() as u64);
+            let res = guarded(|| -> Result<(Vec<bool>, u64), String> {
+                match pool {
+                    "tcp" => {
+                        let (tx, _rx) = std::sync::mpsc::channel();
+                        let p = huginn_net_tcp::WorkerPool::new(workers, 64, 4, 5, tx, None, 64, None).map_err(|e| e.to_string())?;
+                        let o: Vec<bool> = frames.iter().map(|(_, f)| p.dispatch(f.clone()) == huginn_net_tcp::DispatchResult::Dropped).collect();
+                        Ok((o, p.stats().total_dropped))
+                    }
+                    "http" => {
+                        let (tx, _rx) = std::sync::mpsc::channel();
+                        let p = huginn_net_http::WorkerPool::new(workers, 64, 4, 5, tx, None, 64, None).map_err(|e| e.to_string())?;
+                        let o: Vec<bool> = frames.iter().map(|(_, f)| p.dispatch(f.clone()) == huginn_net_http::DispatchResult::Dropped).collect();
+                        Ok((o, p.stats().total_dropped))
+                    }
+                    _ => {
+                        let (tx, _rx) = std::sync::mpsc::channel();
+                        let p = huginn_net_tls::WorkerPool::new(workers, 64, 4, 5, tx, 64, None).map_err(|e| e.to_string())?;
+                        let o: Vec<bool> = frames.iter().map(|(_, f)| p.dispatch(f.clone()) == huginn_net_tls::DispatchResult::Dropped).collect();
+                        Ok((o, p.stats().total_dropped))
+                    }
+                }
+            });
+            match res {
+                Ok(Ok((outcomes, total))) => {
+                    let dropped = outcomes.iter().filter(|x| **x).count() as u64;
+                    r.outcome(&("refused", pool, workers, dropped));
+                    if total != dropped {
+                        let which: Vec<&str> = frames.iter().zip(outcomes.iter()).filter(|(_, d)| **d).map(|(f, _)| f.0).collect();
+                        r.dev(format!("C18/{pool}/total_dropped-disagrees-with-the-dispatch-outcomes"), "counters", || json!({"kind": "refused-frames", "pool": pool, "workers": workers, "dropped_outcomes": dropped, "frames_answered_dropped": which, "stats_total_dropped": total}));
+                    }
+                }
+                Ok(Err(e)) => r.machinery_error(format!("refused-frames: pool not constructible: {e}")),
+                Err(p) => r.dev("C18/panic", "panic", || json!({"kind": "refused-frames", "pool": pool, "detail": p})),
+            }
+        }
+    }
+}
+
 pub fn replay(ex: &Value) -> Report {
     let mut r = Report::new();
     let bs = bases();
+    if ex["kind"].as_str() == Some("refused-frames") {
+        refused_frames_are_counted(&mut r);
+        return r;
+    }
     if ex["kind"].as_str() == Some("dispatcher-threads") {
         dispatcher_threads(&mut r, &bs, &(1..=64).collect::<Vec<usize>>());
         return r;
